@@ -30,7 +30,7 @@ KINDS = ["none", "Runner", "Harvester", "Sampler"]
 COQ_KIND = {"none": "FNone", "Runner": "FRunner", "Harvester": "FHarvester", "Sampler": "FSampler"}
 FAILS = {  # name -> (model tag, kinds it applies to)
     "incomplete": (1, KINDS), "unreadable-result": (3, KINDS), "unreadable-result-listed-last": (3, KINDS),
-    "wrong-var-names": (4, ["Runner", "Harvester"]),
+    "wrong-var-names": (4, ["Runner", "Harvester"]), "surplus-outputs": (4, ["Runner", "Harvester"]),
     "surplus-results": (5, KINDS), "merge-conflict": (6, ["Harvester"]), "merge-conflict-deleted": (6, ["Harvester"]), "save-error": (6, ["Harvester", "Sampler"]),
 }
 
@@ -138,6 +138,24 @@ class Scenario:
             self.runner._var_dims = {"x": (), "y": ()}
 
             def fix():
+                self.runner._var_names = ("out",)
+                self.runner._var_dims = {"out": ()}
+            return fix
+        if fail == "surplus-outputs":
+            # every result carries THREE outputs while the description names two: the dataset cannot be built
+            # (nothing may be dropped silently); corrected by restoring the results and the description
+            saved = {}
+            for i in range(1, self.B + 1):
+                p = self.res(i)
+                saved[p] = open(p, "rb").read()
+                r = pickle.load(open(p, "rb"))
+                pickle.dump(tuple((v, v, v) for v in r), open(p, "wb"))
+            self.runner._var_names = ("out", "o2")
+            self.runner._var_dims = {"out": (), "o2": ()}
+
+            def fix():
+                for p, data in saved.items():
+                    open(p, "wb").write(data)
                 self.runner._var_names = ("out",)
                 self.runner._var_dims = {"out": ()}
             return fix
